@@ -917,7 +917,7 @@ def lossless_rule(ctx, syn):
     """DataOperator::to_string prints the payload of each operator as a literal the parser reads back to the same value.
     For the numeric and datetime payloads that is a property of the formatter alone: `{}` of an integer or float is exact
     (shortest round-trip), a precision/width specifier is not; a datetime is exact through to_rfc3339() only."""
-    r = ctx.rule("C09.LOSSLESS", "DataOperator::to_string renders numeric payloads with a bare {} and datetime payloads with to_rfc3339() (or an equally exact to_rfc3339_opts), directly or through a crate function that does")
+    r = ctx.rule("C09.LOSSLESS", "DataOperator::to_string renders integer payloads with a bare {}, float payloads with {:?} (exact, and keeps the decimal point) and datetime payloads with to_rfc3339() (or an equally exact to_rfc3339_opts), directly or through a crate function that does")
     fs = [f for f in syn.fns if f.name == "to_string" and f.file == "src/datavalue.rs" and "DataOperator" in (f.self_ty or "")]
     if len(fs) != 1 or "DataOperator" not in syn.enums:
         ctx.anchor_missing(r, "DataOperator::to_string")
@@ -928,7 +928,7 @@ def lossless_rule(ctx, syn):
     for v in syn.enums["DataOperator"]["variants"]:
         if len(v["fields"]) == 1:
             t = re.sub(r"\s+", "", v["fields"][0]["ty"]["s"])
-            payload[v["name"]] = "datetime" if t.startswith("DateTime<") else "number" if t in ("isize", "f64", "i64", "usize", "f32") else None
+            payload[v["name"]] = "datetime" if t.startswith("DateTime<") else "float" if t in ("f64", "f32") else "number" if t in ("isize", "i64", "usize") else None
     ms = [n for n in walk(fn.body) if n.get("k") == "match" and unparse(n["e"]) == "self"]
     if len(ms) != 1:
         ctx.anchor_missing(r, "match self in DataOperator::to_string")
@@ -981,10 +981,15 @@ def lossless_rule(ctx, syn):
             ctx.report(r, "shape:" + key, "the arm DataOperator::%s of to_string is not a single format!(literal, ..): how the payload is rendered is not established" % key, fn.file, a["l"])
             continue
         spec = re.findall(r"\{[^}]*\}", strip(fm[0]["args"][0])["v"].replace("{{", "").replace("}}", ""))
-        if any(x != "{}" for x in spec):
-            ctx.report(r, "spec:" + key, "DataOperator::%s is printed with the format specifier %s: a width/precision changes the literal, the parser reads back another value" % (key, [x for x in spec if x != "{}"]), fn.file, a["l"])
+        # an integer is exact with {}; a float must keep its decimal point to be read back as a float: {:?} prints 1.0 where {} prints 1
+        want_spec = "{:?}" if kind == "float" else "{}"
+        if any(x != want_spec for x in spec):
+            if kind == "float" and all(x == "{}" for x in spec):
+                ctx.report(r, "spec:" + key, "DataOperator::%s prints its float payload with {}: a float with an integral value is written without a decimal point (1.0 as `1`) and the parser reads the literal back as an integer operator" % key, fn.file, a["l"])
+            else:
+                ctx.report(r, "spec:" + key, "DataOperator::%s is printed with the format specifier %s: a width/precision changes the literal, the parser reads back another value" % (key, [x for x in spec if x != want_spec]), fn.file, a["l"])
         rest = fm[0]["args"][1:]
-        if kind == "number":
+        if kind in ("number", "float"):
             if not (len(rest) == 1 and strip(rest[0]).get("k") == "path" and strip(rest[0])["path"] == [var]):
                 ctx.report(r, "render:" + key, "DataOperator::%s prints %s instead of the payload itself" % (key, ",".join(unparse(x) for x in rest)), fn.file, a["l"])
         else:
